@@ -44,8 +44,8 @@ EXPLANATION = (
     "priorities, session phases, replies, losses) and evaluates the multiset oracle on the implementation alone."
 )
 ASSUMPTIONS = [
-    "one PASV/EPSV in flight per session: a second PASV/EPSV pipelined behind a suspended one is not generated "
-    "(other commands are)",
+    "a second PASV/EPSV pipelined behind one whose start-up is HELD AT A GATE is not generated (other commands are); "
+    "two passive commands in one segment with no gate are (event pasv2)",
     "in-memory network stands in for sockets: a cancelled start_server leaves nothing bound (on real sockets the "
     "half-made listener leaks as well)",
     "AF_INET server (PASV's 503 'ipv6 mode' exit after a successful start-up is not exercised); EPSV without "
@@ -55,6 +55,8 @@ ASSUMPTIONS = [
 GENERATED_OBLIGATIONS = [
     "noAvailablePortIsOSError (issubclass(errors.NoAvailablePort, OSError)) = true",
     "cancelledIsOSError (issubclass(asyncio.CancelledError, OSError)) = false",
+    "passiveCancelReturnsPort (the try around start_server has a clause for the cancellation that puts the port back) = true",
+    "passiveStartLocked (PASV and EPSV test, start and record the listener inside `async with connection.<lock>`) = true",
 ]
 EXTRA_LEAN_TARGETS = ["AioftpModel.Driver.PortPool", "AioftpModel.Driver.Session", "AioftpModel.Model.Paths"]
 
@@ -338,6 +340,35 @@ async def _run_scenario(loop, scn):
                 if cls == "none" and not at_gate(s) and not alive(s):
                     cls = "crashed"
                 observe(idx, ev, lines, cls, n_log0, info)
+            elif kind == "pasv2":
+                # two passive commands in ONE segment (pipelined): the second is handled while the first may still be
+                # starting its listener; the pair must come out as the two commands one after the other
+                if gated:
+                    continue
+                W.drop_stale_data(s.raw)
+                s.mask = []
+                s.attempt = 0
+                s.recs = []
+                s.pool_before = pool_before
+                env.current = s
+                s.raw.send_raw("".join(c + "\r\n" for c in ev[2:]).encode())
+                await loop.settle()
+                env.current = None
+                new = s.raw.replies[n_rep0:]
+                lines = ["pool ev pasv %d" % sid] + started_lines(s, s.recs) + ["pool ev pasv %d" % sid] * (len(ev) - 3)
+                passive = [x for x in new if x[0] in ("227", "229", "421")]
+                cls = _reply_class(passive[-1:])
+                info = []
+                if [r["outcome"] for r in s.recs].count("ok") > 1:
+                    info.append(("C11:pipelined-passive-commands-start-two-listeners", "%s in one segment started listeners on %r for one session" % (" and ".join(ev[2:]), [r["port"] for r in s.recs if r["outcome"] == "ok"])))
+                if cls == "none" and not alive(s):
+                    cls = "crashed"
+                observe(idx, ev, lines, cls, n_log0, info)
+                if _reply_class(passive[:1]) != "created":
+                    # the first command ended the session (421 / error) while the second was already running beside the
+                    # teardown: how far its own search got before it was cancelled is timing, not pool logic - the
+                    # multiset oracle goes on, the lock-step comparison with the sequential model stops here
+                    obs[-1]["desync"] = True
             elif kind == "open":
                 if not gated:
                     continue
@@ -509,6 +540,8 @@ def random_scenario(rng):
             events.append(["pasv", sid, _kind(rng), mask])
             if any(mask):
                 maybe_gate.add(sid)
+        elif r < 0.50 and sid not in maybe_gate:
+            events.append(["pasv2", sid] + [_kind(rng) for _ in range(rng.choice([2, 2, 3]))])
         elif r < 0.62 and maybe_gate:
             sid = rng.choice(sorted(maybe_gate))
             events.append(["open", sid])
@@ -579,6 +612,13 @@ def fixed_scenarios():
     out.append({"ports": [5000], "faults": {}, "events": [["connect"], ["pasv", 0, "PASV", []], ["cmd", 0, "USER anonymous"], ["pasv", 0, "PASV", []], ["data", 0], ["xfer", 0, "LIST"], ["vanish", 0], ["connect"], ["pasv", 1, "EPSV", []]], "family": "fixed"})
     out.append({"ports": [5000], "faults": {}, "events": [["connect"], ["pasv", 0, "PASV", [1]], ["cmd", 0, "NOOP"], ["open", 0], ["pasv", 0, "EPSV", []], ["data", 0], ["xfer", 0, "RETR"], ["connect"], ["pasv", 1, "PASV", []]], "family": "fixed"})
     out.append({"ports": [5000, 5001], "faults": {}, "events": [["connect"], ["bind", 5000], ["pasv", 0, "PASV", []], ["unbind", 5000], ["connect"], ["bind", 5001], ["pasv", 1, "EPSV", []], ["quit", 0], ["connect"], ["pasv", 2, "EPSV", []]], "family": "fixed"})
+    # two passive commands pipelined in one segment: one listener, one port, and both back at the end
+    for k1 in ("PASV", "EPSV"):
+        for k2 in ("PASV", "EPSV"):
+            out.append({"ports": [5000, 5001, 5002], "faults": {}, "events": [["connect"], ["pasv2", 0, k1, k2], ["data", 0], ["xfer", 0, "LIST"], ["quit", 0], ["connect"], ["pasv", 1, "EPSV", []]], "family": "fixed"})
+    out.append({"ports": [5000, 5001, 5002], "faults": {}, "events": [["connect"], ["pasv2", 0, "PASV", "EPSV", "PASV"], ["quit", 0]], "family": "fixed"})
+    out.append({"ports": [5000], "faults": {}, "events": [["connect"], ["pasv2", 0, "EPSV", "EPSV"], ["vanish", 0], ["connect"], ["pasv", 1, "PASV", []]], "family": "fixed"})
+    out.append({"ports": [5000, 5001], "faults": {"5000": ["EADDRINUSE"]}, "events": [["connect"], ["pasv2", 0, "PASV", "EPSV"], ["connect"], ["pasv2", 1, "EPSV", "PASV"], ["quit", 0], ["quit", 1]], "family": "fixed"})
     return out
 
 
@@ -611,6 +651,8 @@ def compare(obs, mout):
     pos = 0
     last = None
     for o in obs:
+        if o.get("desync"):
+            return None
         n = len(o["model"])
         outs = [parse_model_line(x) for x in mout[pos : pos + n]]
         pos += n
@@ -623,7 +665,7 @@ def compare(obs, mout):
         if last is None:
             continue
         mreply = replies[-1] if replies else "none"
-        if o["ev"][0] not in ("pasv", "open"):
+        if o["ev"][0] not in ("pasv", "open", "pasv2"):
             mreply = "none"  # replies of other commands are not this model's business
         if o["pool"] is None:
             impl_pool = "none"
@@ -645,7 +687,7 @@ def compare(obs, mout):
 # check entry points
 # ------------------------------------------------------------------------------------------------
 def _nontrivial(scn):
-    return bool(scn["faults"]) or any(e[0] in ("server_close", "vanish", "close", "bind", "epsvarg") or (e[0] == "pasv" and len(e) > 3 and any(e[3])) for e in scn["events"])
+    return bool(scn["faults"]) or any(e[0] in ("server_close", "vanish", "close", "bind", "epsvarg") or e[0] == "pasv2" or (e[0] == "pasv" and len(e) > 3 and any(e[3])) for e in scn["events"])
 
 
 def _strip(scn):
